@@ -14,7 +14,7 @@ import run  # noqa
 props = argv[0].split(",")
 tier = os.environ.get("VERIF_TIER", "quick")
 patches = argv[1:]
-run.SCRATCH = "/tmp/wt/try-%d" % os.getpid()
+run.SCRATCH = "/tmp/wtpriv/try-%d" % os.getpid()
 out = {}
 
 
